@@ -943,6 +943,9 @@ def q_solve_qp(interp, P, q, G=None, h=None, A=None, b=None, lb=None, ub=None, s
     for a in (P, q, G, h):
         if not isinstance(a, ATen) or a.kind != "numpy":
             interp.cx.oblige("kinds.solve_qp_gets_ndarrays", False, kind="kinds")
+    # [T] the solver may also REJECT the problem by raising (quadprog: ProblemError when P is not positive definite)
+    if interp.cx.branch(interp.cx.fresh_bool("solve_qp.fails_with_ProblemError")):
+        raise SymRaise(ExcValue("ProblemError"))
     fails = interp.cx.fresh_bool("solve_qp.returns_none")
     val = mk("QPGen", [P, q, G, h], [P.shape_l[0]], P.dtype, "numpy")
     return V.Opt(fails, val)
